@@ -28,7 +28,7 @@ for i in $(seq 0 $((N-1))); do
     done < "$OUT/list$i" ) &
 done
 wait
-/venv/bin/python - "$OUT" <<'PY'
+cat > "$OUT/eval.py" <<'PY'
 import sys, glob, json, re
 import xml.etree.ElementTree as ET
 out = sys.argv[1]
@@ -47,6 +47,19 @@ for t in missing[:40]:
     print('  NOT PASSED:', t)
 sys.exit(1 if missing else 0)
 PY
+/venv/bin/python "$OUT/eval.py" "$OUT"
 rc=$?
+if [ $rc -ne 0 ]; then
+  # timing-sensitive tests (listener, response delay) fail now and then when
+  # all 16 cores are busy: run the files that reported failures once more,
+  # one after the other, and evaluate again
+  echo "--- re-running files with failures serially ---"
+  grep -v '^0 ' "$OUT/rc" | cut -d' ' -f2- | while read -r f; do
+    g=$(echo "$f" | tr / _)
+    ( cd "$OUT/c0" && PYTHONPATH="$OUT/c0" /venv/bin/python -m pytest -q -p no:cacheprovider --timeout=900 --junitxml="$OUT/$g.xml" "$f" > "$OUT/$g.log" 2>&1 )
+  done
+  /venv/bin/python "$OUT/eval.py" "$OUT"
+  rc=$?
+fi
 [ $rc -eq 0 ] && echo "ALL BASELINE TESTS PASS"
 exit $rc
